@@ -167,7 +167,9 @@ fn incoming_valid_under(kind: u8, key: &Option<Vec<u8>>) -> bool {
 /// Runs a history on a fresh real agent (instants = base + offset) and, step by step, on the abstract agent.
 /// Returns the reply trace (with instants as offsets from `base`); mismatches are pushed to `errs` as (key, text).
 pub fn run_history(h: &[AOp], transport: TransportType, base: Instant, errs: &mut Vec<(String, String)>) -> Vec<String> {
-    let mut agent = StunAgent::builder(transport, local()).build();
+    // every other history runs on an agent built with a configured remote address (different from most destinations): C18 pins the
+    // destination given at send time for every transmission, whatever the agent was configured with (round 7)
+    let mut agent = if h.len() % 2 == 1 { StunAgent::builder(transport, local()).remote_addr(addr(1)).build() } else { StunAgent::builder(transport, local()).build() };
     let mut m = MAgent { transport, local: local(), out: BTreeMap::new(), peers: BTreeSet::new(), remote_key: None };
     let mut now: u64 = 0;
     let mut trace = vec![];
